@@ -162,6 +162,8 @@ spec fn state_ranges(s: &State) -> bool {
     &&& s.unstable_blocks.tree.wf()
     &&& s.unstable_blocks.tree.wf_depth()
     &&& s.utxos.next_height as int + s.unstable_blocks.tree.sdepth() + 0x10_0000 < u32::MAX
+    // representation invariant of the announced headers (established by every verified mutator: insert_next_block_headers, pop)
+    &&& s.unstable_blocks.next_block_headers.wf()
 }
 
 // C02: tip height = stable height + |served branch| - 1
@@ -427,10 +429,10 @@ impl BlockTree<CachedBlock> {
     }
 }
 spec fn tree_ok(b: &UnstableBlocks) -> bool {
-    b.tree.wf() && b.tree.wf_depth() && b.tree.difficulties_small(b.stability_threshold)
+    b.tree.wf() && b.tree.wf_depth() && b.tree.difficulties_small(b.stability_threshold) && b.next_block_headers.wf()
 }
 proof fn lemma_tree_ok_child(a: &UnstableBlocks, b: &UnstableBlocks, i: int)
-    requires tree_ok(a), 0 <= i < a.tree.children@.len(), b.tree == a.tree.children@[i], b.stability_threshold == a.stability_threshold,
+    requires tree_ok(a), 0 <= i < a.tree.children@.len(), b.tree == a.tree.children@[i], b.stability_threshold == a.stability_threshold, b.next_block_headers.wf(),
     ensures tree_ok(b),
 {
     assert(a.tree.children@[i].wf());
@@ -569,12 +571,6 @@ impl OutPointsCache {
     #[verifier::external_body]
     fn remove(&mut self, block: &Block) { unimplemented!() }
 }
-impl NextBlockHeaders {
-    #[verifier::external_body]
-    fn remove_until_height(&mut self, until_height: Height)
-        ensures final(self).offered@ == old(self).offered@,
-    { unimplemented!() }
-}
 impl BlockTree<CachedBlock> {
     // [trusted:stand-in] BlockTree::blocks (boxed `once().chain(flat_map())` iterator): all blocks of the subtree, as a vector
     #[verifier::external_body]
@@ -617,10 +613,16 @@ impl UnstableBlocks {
 //@extract file=canister/src/unstable_blocks.rs item="fn pop" props=C03
 //@ ret r
 //@ spec
-//@| requires tree_ok(old(blocks)),
+//@| requires tree_ok(old(blocks)), stable_height < u32::MAX,
 //@| ensures
 //@|     r.is_some() <==> stable_child_spec(old(blocks)).is_some(),
 //@|     r.is_none() ==> *final(blocks) == *old(blocks),
+//@|     // C20: the announced headers at or below the new stable height are dropped, the others are kept, the indexes stay in step
+//@|     final(blocks).next_block_headers.wf(),
+//@|     final(blocks).next_block_headers.offered@ == old(blocks).next_block_headers.offered@,
+//@|     r.is_some() ==> (forall|h: BlockHash| #[trigger] final(blocks).next_block_headers@.contains_key(h) <==>
+//@|         (old(blocks).next_block_headers@.contains_key(h) && old(blocks).next_block_headers@[h].0 > stable_height))
+//@|       && (forall|h: BlockHash| #[trigger] final(blocks).next_block_headers@.contains_key(h) ==> final(blocks).next_block_headers@[h] == old(blocks).next_block_headers@[h]),
 //@|     r matches Some(b) ==> b.hash == old(blocks).tree.root.block_hash && b.header == old(blocks).tree.root.header
 //@|         && 0 <= stable_child_spec(old(blocks)).unwrap() < old(blocks).tree.children@.len()
 //@|         && final(blocks).tree == old(blocks).tree.children@[stable_child_spec(old(blocks)).unwrap()]
@@ -631,6 +633,7 @@ impl UnstableBlocks {
 //@|     blocks.tree == old(blocks).tree.children@[stable_child_idx as int],
 //@|     tree.root == old(blocks).tree.root,
 //@|     blocks.stability_threshold == old(blocks).stability_threshold, blocks.network == old(blocks).network,
+//@|     blocks.next_block_headers == old(blocks).next_block_headers,
 //@end
 
 // the tree after a new leaf `b` has been appended below the first block with hash b.sprev()
@@ -651,12 +654,16 @@ fn push(blocks: &mut UnstableBlocks, utxos: &UtxoSet, block: Block) -> (r: Resul
         old(blocks).tree.wf_depth() ==> final(blocks).tree.wf_depth(),
         final(blocks).tree.sdepth() <= old(blocks).tree.sdepth() + 1,
         forall|b: int| old(blocks).next_block_headers.heights_below(b) ==> final(blocks).next_block_headers.heights_below(b),
+        // C20: the arrived block's announced header is dropped (NextBlockHeaders::remove, verified), the others are kept
+        old(blocks).next_block_headers.wf() ==> final(blocks).next_block_headers.wf(),
+        r.is_ok() ==> final(blocks).next_block_headers@ == old(blocks).next_block_headers@.remove(block.hash),
 { unimplemented!() }
 // [assumption, stated] heights (stable + unstable, announced) stay below 2^31 - 2^17 + slack
 spec fn heights_in_range(s: &State, slack: int) -> bool {
     &&& s.unstable_blocks.tree.wf_depth()
     &&& s.utxos.next_height as int + s.unstable_blocks.tree.sdepth() <= 0x7ffe_0000 + slack
     &&& s.unstable_blocks.next_block_headers.heights_below(0x7ffe_0000 + slack)
+    &&& s.unstable_blocks.next_block_headers.wf()
 }
 
 //@extract file=canister/src/blocktree.rs item="struct BlockDoesNotExtendTree"
@@ -692,7 +699,7 @@ proof fn lemma_child_depth_smaller(t: &BlockTree<CachedBlock>, i: int)
 
 //@extract file=canister/src/state.rs item="fn ingest_stable_blocks_into_utxoset" props=C03
 //@ ret r
-//@ rewrite R9 "fn pop_block\(state: &mut State, ingested_block_hash: BlockHash\)( -> [\w:<>]+)? \{" => "fn pop_block(state: &mut State, ingested_block_hash: BlockHash)\1 requires tree_ok(&old(state).unstable_blocks), stable_child_spec(&old(state).unstable_blocks).is_some(), old(state).unstable_blocks.tree.root.block_hash == ingested_block_hash, old(state).utxos.next_height >= 1, ensures final(state).utxos == old(state).utxos, headers_below_unchanged(old(state).stable_block_headers.by_height@, final(state).stable_block_headers.by_height@, (old(state).utxos.next_height - 1) as Height), final(state).metrics == old(state).metrics, final(state).unstable_blocks.stability_threshold == old(state).unstable_blocks.stability_threshold, 0 <= stable_child_spec(&old(state).unstable_blocks).unwrap() < old(state).unstable_blocks.tree.children@.len(), final(state).unstable_blocks.tree == old(state).unstable_blocks.tree.children@[stable_child_spec(&old(state).unstable_blocks).unwrap()], {"
+//@ rewrite R9 "fn pop_block\(state: &mut State, ingested_block_hash: BlockHash\)( -> [\w:<>]+)? \{" => "fn pop_block(state: &mut State, ingested_block_hash: BlockHash)\1 requires tree_ok(&old(state).unstable_blocks), stable_child_spec(&old(state).unstable_blocks).is_some(), old(state).unstable_blocks.tree.root.block_hash == ingested_block_hash, old(state).utxos.next_height >= 1, old(state).utxos.next_height < u32::MAX, ensures final(state).utxos == old(state).utxos, final(state).unstable_blocks.next_block_headers.wf(), headers_below_unchanged(old(state).stable_block_headers.by_height@, final(state).stable_block_headers.by_height@, (old(state).utxos.next_height - 1) as Height), final(state).metrics == old(state).metrics, final(state).unstable_blocks.stability_threshold == old(state).unstable_blocks.stability_threshold, 0 <= stable_child_spec(&old(state).unstable_blocks).unwrap() < old(state).unstable_blocks.tree.children@.len(), final(state).unstable_blocks.tree == old(state).unstable_blocks.tree.children@[stable_child_spec(&old(state).unstable_blocks).unwrap()], {"
 //@ spec
 //@| requires
 //@|     wf_ingesting(old(state)),
@@ -738,11 +745,12 @@ proof fn lemma_child_depth_smaller(t: &BlockTree<CachedBlock>, i: int)
 //@| proof { state.unstable_blocks.tree.lemma_depth_pos(); }
 //@ before "match state.utxos.ingest_block_continue() {"
 //@| let ghost vp_pre_blocks = state.unstable_blocks;
+//@| proof { state.unstable_blocks.tree.lemma_depth_pos(); }
 //@end
 
 //@extract file=canister/src/state.rs item="fn ingest_stable_blocks_into_utxoset" props=C07 rename=ingest_stable_blocks_into_utxoset_c07
 //@ ret r
-//@ rewrite R9 "fn pop_block\(state: &mut State, ingested_block_hash: BlockHash\)( -> [\w:<>]+)? \{" => "fn pop_block(state: &mut State, ingested_block_hash: BlockHash)\1 requires tree_ok(&old(state).unstable_blocks), stable_child_spec(&old(state).unstable_blocks).is_some(), old(state).unstable_blocks.tree.root.block_hash == ingested_block_hash, old(state).utxos.next_height >= 1, ensures final(state).utxos == old(state).utxos, final(state).stable_block_headers.by_height@ == old(state).stable_block_headers.by_height@.insert((old(state).utxos.next_height - 1) as Height, ingested_block_hash), final(state).metrics == old(state).metrics, final(state).unstable_blocks.stability_threshold == old(state).unstable_blocks.stability_threshold, 0 <= stable_child_spec(&old(state).unstable_blocks).unwrap() < old(state).unstable_blocks.tree.children@.len(), final(state).unstable_blocks.tree == old(state).unstable_blocks.tree.children@[stable_child_spec(&old(state).unstable_blocks).unwrap()], {"
+//@ rewrite R9 "fn pop_block\(state: &mut State, ingested_block_hash: BlockHash\)( -> [\w:<>]+)? \{" => "fn pop_block(state: &mut State, ingested_block_hash: BlockHash)\1 requires tree_ok(&old(state).unstable_blocks), stable_child_spec(&old(state).unstable_blocks).is_some(), old(state).unstable_blocks.tree.root.block_hash == ingested_block_hash, old(state).utxos.next_height >= 1, old(state).utxos.next_height < u32::MAX, ensures final(state).utxos == old(state).utxos, final(state).unstable_blocks.next_block_headers.wf(), final(state).stable_block_headers.by_height@ == old(state).stable_block_headers.by_height@.insert((old(state).utxos.next_height - 1) as Height, ingested_block_hash), final(state).metrics == old(state).metrics, final(state).unstable_blocks.stability_threshold == old(state).unstable_blocks.stability_threshold, 0 <= stable_child_spec(&old(state).unstable_blocks).unwrap() < old(state).unstable_blocks.tree.children@.len(), final(state).unstable_blocks.tree == old(state).unstable_blocks.tree.children@[stable_child_spec(&old(state).unstable_blocks).unwrap()], {"
 //@ spec
 //@| requires
 //@|     wf_ingesting(old(state)),
@@ -781,6 +789,7 @@ proof fn lemma_child_depth_smaller(t: &BlockTree<CachedBlock>, i: int)
 //@| proof { state.unstable_blocks.tree.lemma_depth_pos(); }
 //@ before "match state.utxos.ingest_block_continue() {"
 //@| let ghost vp_pre_blocks = state.unstable_blocks;
+//@| proof { state.unstable_blocks.tree.lemma_depth_pos(); }
 //@end
 
 // ---------------------------------------------------------------------------------------
